@@ -74,13 +74,50 @@ type Gate struct {
 	OnEvent     func(*Event) // optional: called (under no lock) after each recorded event
 	crashCh     chan struct{}
 	T0          time.Time
+	counts      map[string]int   // backend calls entered per owner key
+	faults      map[string]Fault // owner key -> fault to inject
+	dead        map[string]bool  // owner keys that crashed: every further call stops for ever
+}
+
+// Fault: at the At-th backend call (1-based, file-level calls included) of an owner, do Action instead.
+type Fault struct {
+	At     int
+	Action Action
+}
+
+// SetFault plans a fault for an owner key; Count reports how many backend calls the key has entered.
+func (g *Gate) SetFault(key string, f Fault) {
+	g.mu.Lock()
+	g.faults[key] = f
+	g.mu.Unlock()
+}
+
+// Kill makes every further backend call of owner (and of its heartbeat goroutines) stop for ever.
+func (g *Gate) Kill(owner string) {
+	g.mu.Lock()
+	g.dead[owner] = true
+	g.dead[owner+".hb"] = true
+	g.mu.Unlock()
+}
+
+// IsDead reports whether owner crashed (a planned Crash fault fired or Kill was called).
+func (g *Gate) IsDead(owner string) bool {
+	g.mu.Lock()
+	defer g.mu.Unlock()
+	return g.dead[owner]
+}
+
+func (g *Gate) Count(key string) int {
+	g.mu.Lock()
+	defer g.mu.Unlock()
+	return g.counts[key]
 }
 
 // NewGate creates a gate. labelFns are substrings of function names looked for on the stack of each
 // call (innermost first in Event.Labels); hbMarker identifies heartbeat goroutines.
 func NewGate(labelFns []string, hbMarker string) *Gate {
 	g := &Gate{parked: map[string][]*Call{}, finished: map[string]int{}, gating: map[string]bool{}, stale: map[string]bool{},
-		labelFns: labelFns, hbMarker: hbMarker, crashCh: make(chan struct{}), T0: time.Now()}
+		labelFns: labelFns, hbMarker: hbMarker, crashCh: make(chan struct{}), T0: time.Now(), counts: map[string]int{}, faults: map[string]Fault{}, dead: map[string]bool{}}
 	g.cond = sync.NewCond(&g.mu)
 	return g
 }
@@ -96,6 +133,9 @@ func (g *Gate) SetGating(key string, on bool) {
 // Shutdown releases everything parked (Proceed) and disables gating; crashed calls stay blocked.
 func (g *Gate) Shutdown() {
 	g.mu.Lock()
+	if !g.stopped {
+		close(g.crashCh)
+	}
 	g.stopped = true
 	var all []*Call
 	for k, cs := range g.parked {
@@ -193,9 +233,7 @@ func (g *Gate) Release(c *Call, a Action) {
 	}
 	g.mu.Unlock()
 	c.release <- a
-	if a != Crash {
-		<-c.done
-	}
+	<-c.done
 }
 
 // Log returns a copy of the events recorded so far.
@@ -262,6 +300,17 @@ func (g *Gate) enter(owner, op, path string, mut bool, fileOp bool) (ev Event, a
 	act = Proceed
 	var c *Call
 	g.mu.Lock()
+	g.counts[key]++
+	if f, ok := g.faults[key]; ok && f.At == g.counts[key] && !g.stopped {
+		act = f.Action
+		if act == Crash { // the whole logical process dies: its heartbeat goroutines too
+			g.dead[owner] = true
+			g.dead[owner+".hb"] = true
+		}
+	}
+	if g.dead[key] && !g.stopped {
+		act = Crash
+	}
 	gate := g.gating[key] && !g.stopped && (!fileOp || g.GateFileOps)
 	if gate {
 		c = &Call{Key: key, Ev: ev, release: make(chan Action, 1), done: make(chan struct{})}
@@ -271,9 +320,20 @@ func (g *Gate) enter(owner, op, path string, mut bool, fileOp bool) (ev Event, a
 	if c != nil {
 		g.cond.Broadcast()
 		act = <-c.release
-		if act == Crash {
-			<-g.crashCh // never closed: the owner stops here for ever
+	}
+	if act == Crash {
+		g.mu.Lock()
+		ev.Err = "crashed"
+		ev.Seq = g.seq.Add(1)
+		ev.At = int64(time.Since(g.T0))
+		g.log = append(g.log, ev)
+		g.mu.Unlock()
+		if c != nil {
+			close(c.done)
+			c = nil
 		}
+		<-g.crashCh // closed only at Shutdown: the owner stops here for the rest of the scenario
+		act = Fail
 	}
 	done := func(err error, n int, handles int) {
 		ev.OK = err == nil
